@@ -22,6 +22,7 @@ import LinVerif.Lemmas.C14SnappyReuse
 import LinVerif.Lemmas.C14Rejected
 import LinVerif.Lemmas.C14StreamFree
 import LinVerif.Lemmas.C14FoHistory
+import LinVerif.Lemmas.C14EncUtils
 
 namespace LinVerif.Props.C14
 open LinVerif LinVerif.Bits LinVerif.Varint
@@ -1576,5 +1577,84 @@ theorem scan_cursor_survives_unmarshal :
 end Neg
 
 end FoHistory
+
+/-! ## 14. pkg/encoding/utils.go (slices seen as bytes and back) and the 16/16 split of a uint32 (Round 12)
+
+Used by the storage paths outside the block codecs: `memdb` field writer and `metricsdata` flusher/merger
+(`Float64ToBytes` / `BytesToFloat64`), the trie (`U32/U64SliceToBytes`, `BytesToU32/U64Slice`), the forward index
+(`HighBits`/`LowBits`/`ValueWithHighLowBits` — container key + low 16 bits of a series id). -/
+
+section EncUtils
+open LinVerif.EncUtils
+
+/-- **u32_slice_bytes_roundtrip / u64.** Every `[]uint32` (`[]uint64`) seen as bytes and read back is the same slice,
+also from a buffer that continues with up to 3 (7) more bytes; the byte view has `4·len` (`8·len`) bytes. -/
+theorem word_slices_roundtrip (u tail : List Nat) :
+    ((∀ v ∈ u, v < 2 ^ 32) → tail.length < 4 →
+      bytesToU32Slice (u32SliceToBytes u ++ tail) = u ∧ (u32SliceToBytes u).length = 4 * u.length) ∧
+    ((∀ v ∈ u, v < 2 ^ 64) → tail.length < 8 →
+      bytesToU64Slice (u64SliceToBytes u ++ tail) = u ∧ (u64SliceToBytes u).length = 8 * u.length) := by
+  refine ⟨fun h ht => ⟨?_, u32_bytes_length u⟩, fun h ht => ⟨?_, u64_bytes_length u⟩⟩
+  · have hl : (u32SliceToBytes u ++ tail).length / 4 = u.length := by
+      rw [List.length_append, u32_bytes_length]; omega
+    unfold bytesToU32Slice
+    rw [hl]
+    exact words4_bytes u tail (fun v hv => by simpa using h v hv)
+  · have hl : (u64SliceToBytes u ++ tail).length / 8 = u.length := by
+      rw [List.length_append, u64_bytes_length]; omega
+    unfold bytesToU64Slice
+    rw [hl]
+    exact words8_bytes u tail (fun v hv => by simpa using h v hv)
+
+/-- **float64_bytes_roundtrip.** Every 64-bit pattern (every NaN payload, ±0, subnormals) written with
+`Float64ToBytes` and read with `BytesToFloat64` — whatever follows in the buffer — is the same pattern. -/
+theorem float64_bytes_roundtrip (bits : Nat) (rest : List Nat) (h : bits < 2 ^ 64) :
+    bytesToFloat64 (float64ToBytes bits ++ rest) = some bits ∧ (float64ToBytes bits).length = 8 := by
+  refine ⟨?_, rfl⟩
+  have hl : ¬ (float64ToBytes bits ++ rest).length < 8 := by
+    simp [float64ToBytes, le8_length]
+  unfold bytesToFloat64
+  rw [if_neg hl]
+  have : (float64ToBytes bits ++ rest).take 8 = le8 bits := by
+    rw [List.take_append_of_le_length (by simp [float64ToBytes, le8_length])]; simp [float64ToBytes, le8, le4]
+  rw [this, fromLE_le8 bits (by simpa using h)]
+
+/-- **uint32_high_low_split_roundtrip.** Every `uint32` is put together again from its two halves, and every pair of
+halves is read back from the value they form (the split loses nothing and invents nothing). -/
+theorem uint32_high_low_split_roundtrip :
+    (∀ x, x < 2 ^ 32 → valueWithHighLowBits (highBits x <<< 16) (lowBits x) = x ∧ highBits x < 2 ^ 16 ∧ lowBits x < 2 ^ 16) ∧
+    (∀ hi lo, hi < 2 ^ 16 → lo < 2 ^ 16 →
+      highBits (valueWithHighLowBits (hi <<< 16) lo) = hi ∧ lowBits (valueWithHighLowBits (hi <<< 16) lo) = lo) := by
+  refine ⟨fun x hx => ⟨split_roundtrip x (by simpa using hx), ?_, ?_⟩, fun hi lo h1 h2 =>
+    split_inverse hi lo (by simpa using h1) (by simpa using h2)⟩
+  · exact Nat.mod_lt _ (by decide)
+  · exact Nat.mod_lt _ (by decide)
+
+example :
+    bytesToU32Slice (u32SliceToBytes [0, 1, 4294967295, 305419896] ++ [9, 9]) = [0, 1, 4294967295, 305419896] ∧
+    u32SliceToBytes [305419896] = [0x78, 0x56, 0x34, 0x12] ∧
+    bytesToFloat64 (float64ToBytes 0x7ff8000000000001) = some 0x7ff8000000000001 ∧
+    highBits 0xabcd1234 = 0xabcd ∧ lowBits 0xabcd1234 = 0x1234 := by decide
+
+/-- TIE: the expressions the nine functions return, as written in the source (a changed shift, mask, element size or
+guard re-opens this by name), and the mask constant. -/
+theorem enc_utils_source_expected :
+    Generated.C14.highBitsReturns = ["uint16(x >> 16)"] ∧
+    Generated.C14.lowBitsReturns = ["uint16(x & maxLowBit)"] ∧
+    Generated.C14.valueWithHighLowBitsReturns = ["uint32(low & maxLowBit) | high"] ∧
+    Generated.C14.maxLowBit = 65535 ∧
+    Generated.C14.u32SliceToBytesReturns = ["if len(u) == 0", "nil",
+      "unsafe.Slice((*byte)(unsafe.Pointer(unsafe.SliceData(u))), len(u) * 4)"] ∧
+    Generated.C14.bytesToU32SliceReturns = ["if len(b) == 0", "nil",
+      "unsafe.Slice((*uint32)(unsafe.Pointer(unsafe.SliceData(b))), len(b) / 4)"] ∧
+    Generated.C14.u64SliceToBytesReturns = ["if len(u) == 0", "nil",
+      "unsafe.Slice((*byte)(unsafe.Pointer(unsafe.SliceData(u))), len(u) * 8)"] ∧
+    Generated.C14.bytesToU64SliceReturns = ["if len(b) == 0", "nil",
+      "unsafe.Slice((*uint64)(unsafe.Pointer(unsafe.SliceData(b))), len(b) / 8)"] ∧
+    Generated.C14.float64ToBytesReturns = ["unsafe.Slice((*byte)(unsafe.Pointer(&f64)), 8)"] ∧
+    Generated.C14.bytesToFloat64Returns = ["unsafe.Slice((*float64)(unsafe.Pointer(unsafe.SliceData(b))), 1)[0]"] :=
+  ⟨rfl, rfl, rfl, rfl, rfl, rfl, rfl, rfl, rfl, rfl⟩
+
+end EncUtils
 
 end LinVerif.Props.C14
